@@ -195,6 +195,26 @@ func checkC12(c *Ctx, r *Report) {
 	// R12.4: CRC-guardedness of the recogniser is about its argument: the clients must hand it
 	// exactly the bytes received so far, not a prefix or a single chunk
 	clientLoopItems(c, r, "R7.3", "R12.4", "the recogniser sees received[0:total]")
+	// R12.5: the CRC-verifying parser is given exactly what was received: Do hands do()'s result
+	// to parseResponseFunc unchanged (no trimming or re-slicing in between) (C19 R19.3)
+	for _, spec := range []struct {
+		name   string
+		serial bool
+	}{{"Client", false}, {"SerialClient", true}} {
+		ci := analyseClient(c, spec.name, spec.serial)
+		tmp := newReport(r.Prop, r.Tier)
+		c19Client(c, tmp, ci, false)
+		r.instance("R12.5", copyItems(tmp, r, "R19.3", "R12.5", "the parsed frame is do()'s result"))
+	}
+	r.floor("R12.5", 2)
+	// R12.6: the guard is only as good as the checksum: its constants (initial value, reflected
+	// polynomial or the lookup table derived from it) are the specification's (C03 R3.4)
+	{
+		tmp := newReport(r.Prop, r.Tier)
+		c03Constants(c, tmp, crc)
+		r.instance("R12.6", copyItems(tmp, r, "R3.4", "R12.6"))
+		r.floor("R12.6", 1)
+	}
 	r.assumption("CRC16 is uninterpreted; a reply whose trailer differs from CRC16 of its body fails the equality on every path")
 	r.assumption("functions supplied by the user through ClientConfig are outside the property")
 }
